@@ -139,6 +139,22 @@ Proof.
       destruct (a_fate a); [now destruct Hf| |]; cbn [fate_eqb negb andb]; apply orb_true_r.
 Qed.
 
+(* stores that all complete, each followed by reads (the quick store / read sequences on one long-lived
+   store object): their judge IS the history judge on the all-Done history, whatever was read before *)
+Lemma reads_ok_is_hist : forall l p,
+  reads_ok l = hist_ok p (map (fun x : N * reading => (fst x, Done, snd x)) l).
+Proof.
+  induction l as [|[v r] l IH]; intro p; [reflexivity|].
+  unfold reads_ok in *. cbn [forallb map hist_ok fst snd fate_eqb negb andb].
+  rewrite orb_false_r. f_equal. apply IH.
+Qed.
+
+Lemma reads_ok_sound : forall l, reads_ok l = true -> forall v r, In (v, r) l -> r = RVal v.
+Proof.
+  intros l H v r Hin. unfold reads_ok in H. rewrite forallb_forall in H.
+  specialize (H _ Hin). cbn [fst snd] in H. now apply reading_eqb_eq.
+Qed.
+
 (* ---- leftovers do not matter --------------------------------------------------------------------- *)
 
 Lemma mem_In : forall p l, mem p l = true -> In p l.
